@@ -1093,6 +1093,12 @@ class ConcurrentVector {
   }
 
   iterator insertPartial(const_iterator pos, size_t len) {
+    if (len == 0) {
+      // Nothing to insert: don't self-move-assign the tail onto itself.
+      auto it = begin();
+      it += (pos - it);
+      return it;
+    }
     auto e = end();
     auto index = size_.fetch_add(len, std::memory_order_relaxed);
     auto binfo = bucketAndSubIndex(index);
